@@ -853,7 +853,84 @@ fn normalise(s: &str) -> String {
 // ---------------------------------------------------------------------------------------------
 // C09
 
+fn thread_cpu_ns() -> u64 {
+    let mut ts = libc::timespec { tv_sec: 0, tv_nsec: 0 };
+    // SAFETY: plain syscall wrapper writing into a local
+    unsafe { libc::clock_gettime(libc::CLOCK_THREAD_CPUTIME_ID, &mut ts) };
+    ts.tv_sec as u64 * 1_000_000_000 + ts.tv_nsec as u64
+}
+
+/// Many records of one kind, once in ascending and once in descending address order: the CPU time
+/// of the two parses (this thread's CPU clock, so other load does not count) must be of the same
+/// order.  A table-building step that is linear for sorted input and quadratic otherwise makes a
+/// hostile file of a few megabytes take minutes — "never loops forever" in practice.  This is the
+/// one oracle that reads a clock; its verdict needs a factor of 12 and at least 0.4 s.
+fn c09_order_sensitivity() -> Outcome {
+    probe("e1.order_sensitivity");
+    let n = range("c09.order.n", 40_000, 90_000);
+    let kind = ch("c09.order.kind", 6);
+    let line = |k: u64| -> String {
+        match kind {
+            0 => format!("STACK CFI {:x} .cfa: $rsp {} +", 0x1001 + k, 8 + (k % 64) * 8),
+            1 => format!("{:x} 1 {} 0", 0x1000 + k, 1 + k % 5000),
+            2 => format!("PUBLIC {:x} 0 p{}", 0x1000 + k * 4, k),
+            3 => format!("FUNC {:x} 4 0 f{}", 0x1000 + k * 4, k),
+            4 => format!("INLINE {} {} 0 0 {:x} 1", k % 3, 1 + k % 5000, 0x1000 + k),
+            _ => format!("FILE {} src/file_{}.c", k, k),
+        }
+    };
+    let head = match kind {
+        0 => format!("STACK CFI INIT 1000 {:x} .cfa: $rsp 8 + .ra: .cfa 8 - ^\n", n + 16),
+        1 | 4 => format!("FILE 0 a.c\nINLINE_ORIGIN 0 inl\nFUNC 1000 {:x} 0 big\n", n + 16),
+        _ => String::new(),
+    };
+    let build = |descending: bool| -> Vec<u8> {
+        let mut s = String::with_capacity(n as usize * 40);
+        s.push_str("MODULE Linux x86_64 000000000000000000000000000000000 order.so\n");
+        s.push_str(&head);
+        for i in 0..n {
+            let k = if descending { n - 1 - i } else { i };
+            s.push_str(&line(k));
+            s.push('\n');
+        }
+        s.into_bytes()
+    };
+    let kinds = ["STACK CFI deltas of one INIT", "line records of one FUNC", "PUBLIC", "FUNC", "INLINE records of one FUNC", "FILE"];
+    let mut times = [0u64; 2];
+    let mut outcome = [String::new(), String::new()];
+    for (i, desc) in [false, true].into_iter().enumerate() {
+        let data = build(desc);
+        let t0 = thread_cpu_ns();
+        let r = SymbolFile::from_bytes(&data);
+        times[i] = thread_cpu_ns() - t0;
+        outcome[i] = match &r {
+            Ok(_) => "Ok".to_string(),
+            Err(e) => err_class(e),
+        };
+    }
+    let info = json!({"scenario": "order sensitivity", "records": n, "kind": kinds[kind as usize], "cpu_ms_ascending": times[0] / 1_000_000, "cpu_ms_descending": times[1] / 1_000_000, "outcomes": outcome});
+    let result = (|| -> simkit::Check {
+        let (lo, hi) = (times[0].min(times[1]).max(1), times[0].max(times[1]));
+        simkit::ensure!(
+            !(hi >= 400_000_000 && hi / lo >= 12),
+            "c09.order_sensitive_time",
+            "parsing the same records in another order takes more than twelve times the CPU time ({}): a table-building step is quadratic for unsorted input",
+            kinds[kind as usize]
+        );
+        Ok(())
+    })();
+    Outcome {
+        result,
+        nontrivial: true,
+        key: simkit::rng::mix(&[n, kind as u64]),
+        info,
+    }
+}
+
 pub fn run_c09() -> Outcome {
+    if chance("c09.scenario.order", 1, 400) {
+        return c09_order_sensitivity();
+    }
     let scenario = ch("c09.scenario", 8);
     match scenario {
         0 | 1 => c09_long_line_dropped(),
